@@ -373,6 +373,19 @@ func components() []struct {
 		{"insertion", func() component.Component {
 			return &component.Text{Content: "ins", S: component.Style{Insertion: sp("inserted"), Strikethrough: component.True}}
 		}},
+		// quantifier audit: the third way components nest (hover text inside a style) and the other component kinds
+		{"hover-show-text-nested", func() component.Component {
+			return &component.Text{Content: "hover me", S: component.Style{HoverEvent: component.ShowText(
+				&component.Text{Content: "tip", S: component.Style{Color: color.Aqua}, Extra: []component.Component{&component.Text{Content: "more"}}})}}
+		}},
+		{"click-open-url", func() component.Component {
+			return &component.Text{Content: "link", S: component.Style{ClickEvent: component.OpenUrl("https://example.com/a?b=c&d=\"e\"")}}
+		}},
+		{"keybind", func() component.Component { return &component.Keybind{Key: "key.jump", S: component.Style{Italic: component.True}} }},
+		{"selector+separator", func() component.Component {
+			return &component.Selector{Pattern: "@a[distance=..5]", Separator: &component.Text{Content: ", "}}
+		}},
+		{"score", func() component.Component { return &component.Score{Name: "*", Objective: "kills"} }},
 		{"text-len16384", func() component.Component { return &component.Text{Content: rep("x", 16384)} }},
 		{"text-len40000", func() component.Component { return &component.Text{Content: rep("y", 40000)} }},
 	}
